@@ -583,12 +583,19 @@ def judge_history(hist, wd, cache, fresh):
         b = json.dumps(d, sort_keys=True)
         if b not in fresh:
             fresh[b] = set(f[0] for f in check_spec(d, wd)[2])
-        for sig, detail in oracle(d, {key: r}, {}, foreign=True):
-            if sig in fresh[b]:
-                continue
-            what = ('call %d %r on document %d %s' % (n, hist['ops'][n] if n >= 0 else 'constructor', di,
-                    'again' if cls == 'repeat' else 'after this object converted / loaded another document'))
+        found = [(sig, detail) for sig, detail in oracle(d, {key: r}, {}, foreign=True) if sig not in fresh[b]]
+        # text or blanks of ANOTHER document in this output (counted, see PENDING) shift the positions the separator clause reads
+        # the output at: with foreign material present that clause cannot be judged (a thorough run with seed 11 reported
+        # reuse-x-separator-lost for a document whose output carried three foot notes of the document converted before: false alarm)
+        foreign_here = any(sig.endswith('-foreign') for sig, _ in found)
+        what = ('call %d %r on document %d %s' % (n, hist['ops'][n] if n >= 0 else 'constructor', di,
+                'again' if cls == 'repeat' else 'after this object converted / loaded another document'))
+        held_back = []
+        for sig, detail in found:
+            if sig == 'x-separator-lost':
+                held_back.append((sig, detail)); continue
             fails.append(('%s-%s' % (cls, sig), '%s: %s' % (what, detail)))
+        n_before = len(fails)
         # text of ANOTHER document of the history in this conversion (unique words that the loaded document does not have)
         if r[0] == 'ok' and isinstance(r[1], str):
             try:
@@ -600,6 +607,9 @@ def judge_history(hist, wd, cache, fresh):
             if alien:
                 fails.append(('%s-%s-foreign-text' % (cls, key[0]), 'call %d %r on document %d: the output holds %r of another document this object '
                               'converted before' % (n, hist['ops'][n], di, alien[:3])))
+        if held_back and not foreign_here and len(fails) == n_before:
+            for sig, detail in held_back:
+                fails.append(('%s-%s' % (cls, sig), '%s: %s' % (what, detail)))
     return fails
 
 
